@@ -292,13 +292,14 @@ def errors_oracle():
             try:
                 out = fit.covar_errors(p, data, errs=1.0, B=None)
                 for j in range(2):
-                    s = models.ComponentSource()
-                    s.source, s.flags, s.peak_flux, s.a, s.b, s.pa, s.int_flux = j, 0, 2.0, 100., 80., 10., 3.0
-                    fit.errors(s, out, helper)
-                    for nm in ERRS:
-                        v = getattr(s, nm)
-                        if v is None or not real_np.isfinite(v) or (v < 0 and v != -1):
-                            return True, 'uncertainty-not-positive-or-marker', 'two components %g px apart: %s = %r (must be > 0 and finite, or exactly -1)' % (shift, nm, v)
+                    for sign in (1, -1):                    # sources of either sign (negative ones carry negative fluxes)
+                        s = models.ComponentSource()
+                        s.source, s.flags, s.peak_flux, s.a, s.b, s.pa, s.int_flux = j, 0, sign * 2.0, 100., 80., 10., sign * 3.0
+                        fit.errors(s, out, helper)
+                        for nm in ERRS:
+                            v = getattr(s, nm)
+                            if v is None or not real_np.isfinite(v) or (v < 0 and v != -1):
+                                return True, 'uncertainty-not-positive-or-marker', 'two components %g px apart, flux sign %+d: %s = %r (must be > 0 and finite, or exactly -1)' % (shift, sign, nm, v)
             except Exception as e:
                 return True, 'raises-%s' % type(e).__name__, 'errors() on a degenerate model raised %r' % (e,)
     return False, None, None
